@@ -10,6 +10,9 @@ import (
 	"time"
 )
 
+// wall-clock backstop = CPU budget * wallFactor
+const wallFactor = 6
+
 type solverSpec struct {
 	name string
 	cmd  func(timeoutSec int) []string
@@ -52,16 +55,20 @@ func (sc *Script) text(o *Obligation, wantModel bool) string {
 }
 
 func runSolver(ctx context.Context, s solverSpec, script string, timeoutSec int) (verdict string, out string, ms int64) {
-	args := s.cmd(timeoutSec)
-	cctx, cancel := context.WithTimeout(ctx, time.Duration(timeoutSec+2)*time.Second)
+	// The budget is CPU time (ulimit -t), so a loaded machine makes a check slower, never different;
+	// the solver's own wall-clock limit and the context are a generous backstop.
+	wall := timeoutSec * wallFactor
+	args := s.cmd(wall)
+	cctx, cancel := context.WithTimeout(ctx, time.Duration(wall+2)*time.Second)
 	defer cancel()
-	cmd := exec.CommandContext(cctx, args[0], args[1:]...)
+	sh := append([]string{"-c", fmt.Sprintf("ulimit -t %d; exec \"$@\"", timeoutSec), "sh"}, args...)
+	cmd := exec.CommandContext(cctx, "/bin/sh", sh...)
 	cmd.Stdin = strings.NewReader(script)
 	var ob bytes.Buffer
 	cmd.Stdout = &ob
 	cmd.Stderr = &ob
 	t0 := time.Now()
-	_ = cmd.Run()
+	runErr := cmd.Run()
 	ms = time.Since(t0).Milliseconds()
 	out = ob.String()
 	first := ""
@@ -79,7 +86,14 @@ func runSolver(ctx context.Context, s solverSpec, script string, timeoutSec int)
 	case "timeout":
 		verdict = "timeout"
 	default:
-		if cctx.Err() != nil || strings.Contains(out, "timeout") || strings.Contains(out, "interrupted") {
+		killedByCPU := false
+		if ee, ok := runErr.(*exec.ExitError); ok && !ee.Exited() {
+			killedByCPU = true // SIGXCPU / SIGKILL from the CPU limit
+		}
+		if first == "" && runErr != nil {
+			killedByCPU = true
+		}
+		if killedByCPU || cctx.Err() != nil || strings.Contains(out, "timeout") || strings.Contains(out, "interrupted") {
 			verdict = "timeout"
 		} else {
 			verdict = "error"
